@@ -236,7 +236,11 @@ fn worker_main(args: &Args, case: &Case, idx: usize, k: u32, kk: u32, known: (St
     }
     let budget = args.budget.unwrap_or_else(|| tier_budget(&args.tier));
     let limits = Limits { known_prefix: known.0, known_globs: known.1, deadline: explore::deadline_in(budget), worker: (k, kk) };
-    let r = explore::explore(&case.cfg, &stages, &limits, &args.job_ne, case.body.clone());
+    let mut case_cfg = case.cfg.clone();
+    if std::env::var("IXMC_NO_ELIDE").is_ok() {
+        case_cfg.elide = false;
+    }
+    let r = explore::explore(&case_cfg, &stages, &limits, &args.job_ne, case.body.clone());
     let (nstates, transitions, capped) = rt::session_counts();
     let out = args.out.clone().expect("--out");
     // states file: sorted u64 LE
